@@ -188,17 +188,20 @@ IsChain(h, from, to) ==
 
 \* C03: the diffs compose, in execution order, from the original to the content on disk;
 \* a file without a changeset is unchanged; every changeset is a real change.
-C03_Composes ==
+\* X: files changed by the environment during the run (fault injection), exempt from the composition chain
+C03_ComposesExcept(X) ==
   (pc # "init" /\ ~cfg.dryRun) =>
-     \A f \in DOMAIN disk : f \notin inflight => IsChain(History(f), orig[f], disk[f])
+     \A f \in DOMAIN disk \ X : f \notin inflight => IsChain(History(f), orig[f], disk[f])
+C03_Composes == C03_ComposesExcept({})
 C03_RealChanges ==
   pc # "init" => \A f \in DOMAIN disk : \A i \in 1..Len(History(f)) : History(f)[i].pre # History(f)[i].new
 
 \* C04: with --dry-run the disk never moves; every reported diff starts from the original
-C04_DryRunFrozen ==
+C04_DryRunFrozenExcept(X) ==
   (pc # "init" /\ cfg.dryRun) =>
-     /\ disk = orig
-     /\ \A f \in DOMAIN disk : \A i \in 1..Len(History(f)) : History(f)[i].pre = orig[f]
+     /\ \A f \in DOMAIN disk \ X : disk[f] = orig[f]
+     /\ \A f \in DOMAIN disk \ X : \A i \in 1..Len(History(f)) : History(f)[i].pre = orig[f]
+C04_DryRunFrozen == C04_DryRunFrozenExcept({})
 
 \* C10: a failed file is left as it was
 C10_FailedUntouched ==
